@@ -303,6 +303,61 @@ def run_case(ctx, rng, ci, names):
                  {"argv": argv, "inputs": gen.ds_summary(ds), "rows": len(rows)})
 
 
+def obsfcst_table(ctx, rng, ci):
+    """-m obsfcst as a table: columns obs + one per input, aggregated over the cases where both obs and fcst exist"""
+    F = rng.choice([1, 2, 3])
+    ds = gen.make_dataset(rng, n_inputs=F, miss=rng.choice([0.0, 0.15]), sparse=0.0, max_t=4, max_l=4, max_s=3, vrange=(0, 14))
+    d = os.path.join(ctx.workdir, "of%d" % ci)
+    os.makedirs(d, exist_ok=True)
+    paths, _ = gen.materialize(ds, d, None)
+    axis = rng.choice(["leadtime", "time", "location", "month", "leadtimeday", "no"])
+    agg = rng.choice([None, "median", "max", "sum"])
+    otype = rng.choice(["csv", "text"])
+    acc = rng.random() < 0.2
+    argv = ["-m", "obsfcst", "-x", axis, "-type", otype] + (["-agg", agg] if agg else []) + (["-acc"] if acc else [])
+    o = runner.run_cli(paths + argv)
+    case = {"ds": ds, "argv": argv}
+    if o.status != "ok":
+        if o.status == "crash":
+            ctx.violation("crash|%s@%s" % (o.exc_type, o.where), "verif <files> %s\n%s" % (" ".join(argv), o.tb), case)
+        return
+    header, rows = runner.parse_csv(o.stdout) if otype == "csv" else parse_text(o.stdout)
+    ctx.count("tables")
+    nd = 4 if axis in refmodel.LOC_AXES else 1
+    want_names = ["obs"] + [i["name"] for i in ds["inputs"]]
+    if [h.strip() for h in header][nd:] != want_names:
+        ctx.violation("header|obsfcst", "header %s, documented ... %s" % (header, want_names), case)
+        return
+    fields = [("obs",), ("fcst",)]
+    cols = []
+    sl0 = refmodel.slices(ds, 0, fields, axis)
+    cols.append([refmetrics.aggregate(agg or "mean", [c[0] for c in cs]) if cs else NAN for lab, cs in sl0])
+    for k in range(F):
+        sl = refmodel.slices(ds, k, fields, axis)
+        cols.append([refmetrics.aggregate(agg or "mean", [c[1] for c in cs]) if cs else NAN for lab, cs in sl])
+    if acc:
+        for col in cols:
+            run = 0.0
+            for i in range(len(col)):
+                run += 0.0 if col[i] != col[i] else col[i]
+                col[i] = run
+    if len(rows) != len(cols[0]):
+        ctx.violation("row-count|obsfcst", "%d rows, %d slices" % (len(rows), len(cols[0])), case)
+        return
+    sig = 6 if otype == "csv" else 4
+    for i, row in enumerate(rows):
+        for j, col in enumerate(cols):
+            ctx.count("values_compared")
+            w = col[i]
+            txt = row[nd + j]
+            ok = (txt.lower() == "nan") if w != w else vutil.close_text_number(txt, w, sig)
+            if not ok:
+                ctx.violation("printed-number-differs|obsfcst|%s" % otype, "verif <files> %s row %d column %s: printed %s, defining %r"
+                              % (" ".join(argv), i, want_names[j], txt, w), case)
+                return
+    ctx.case("obsfcst|%s|%s|acc%d|F%d" % (axis, otype, acc, F), len(rows) >= 2, {"argv": argv})
+
+
 def run_shard(desc, ctx):
     if not _audit["installed"]:
         sys.addaudithook(_hook)
@@ -311,6 +366,7 @@ def run_shard(desc, ctx):
     names = all_metric_names()
     for ci in range(desc["n"]):
         run_case(ctx, rng, ci, names)
+        obsfcst_table(ctx, rng, ci)
 
 
 def replay(case, ctx):
